@@ -12,7 +12,7 @@ const verifGateMaxL = 8
 // with log forwarding switched on. Ids outstanding for another agent do not count.
 func H_c05_gate() {
 	ci := nondet_choice("cmd", len(verifCommands)+1)
-	L := nondet_choice("L", verifGateMaxL+1)
+	L := nondet_choice("L", verif_bound("gate-maxL", verifGateMaxL, 11)+1)
 	ts, A, B, C := verifStateS()
 	ts.Logs = nondet_bool("sendlogs")
 	var cmd uint32
